@@ -257,8 +257,10 @@ def width (items : List Item) : Nat := (items.map Item.width).sum
 
 /-- The inner `for g in t.graphemes(true)` loop of `truncate_str_impl`, from `used` columns.
 Returns the clusters pushed, the new `used`, and whether a cluster did not fit (the loop was left
-by `break`); `none` = the `debug_assert!` on a cluster wider than 2 fires (dev profile). The fill
-character has width 1 and does *not* advance `used`. -/
+by `break`). The fill character has width 1 and does *not* advance `used`. A cluster wider than 2
+columns that does not fit: the fallback pushes the fill character `display_width.saturating_sub(used)`
+times — since fix d6cf9d0; before it (`truncateAssertsWideCluster`, generated) a `debug_assert!` stood
+in front of the fallback: `none` (dev profile). -/
 def truncText (dw : Nat) (fill : Option Char) : Nat → List G → Option (List G × Nat × Bool)
   | used, [] => some ([], used, false)
   | used, g :: gs =>
@@ -266,7 +268,9 @@ def truncText (dw : Nat) (fill : Option Char) : Nat → List G → Option (List 
       match fill with
       | some f =>
         if g.w = 2 ∧ used < dw then some ([⟨[f], 1⟩], used, true)
-        else if g.w > 2 then none
+        else if g.w > 2 then
+          if truncateAssertsWideCluster then none
+          else some (List.replicate (dw - used) ⟨[f], 1⟩, used, true)
         else some ([], used, true)
       | none => some ([], used, true)
     else
